@@ -406,7 +406,7 @@ class Gen:
                     self.ops.append({'op': 'setAsParent', 'p': p, 'cs': rng.sample(self.kids[p], min(2, len(self.kids[p])))})
             elif r < 0.85 and self.cls:
                 n = rng.randrange(len(self.cls))
-                ts = rng.sample(['main', 'header', 'para', 'marginalia', 'x'], rng.choice([1, 1, 2]))
+                ts = rng.sample(['main', 'mainly', 'header', 'page-header', 'para', 'marginalia', 'x'], rng.choice([1, 1, 2]))
                 if rng.random() < 0.3:      # one call naming the same tag twice
                     ts = ts + [ts[0]]
                 self.ops.append({'op': 'addType', 'n': n, 'ts': ts, 'as_str': rng.random() < 0.7})
@@ -414,7 +414,7 @@ class Gen:
                     self.ops.append({'op': 'addType', 'n': n, 'ts': ts[:1]})
             elif r < 0.93 and self.cls:
                 n = rng.randrange(len(self.cls))
-                ts = rng.sample(['main', 'header', 'para', 'marginalia', 'x'], rng.choice([1, 1, 2]))
+                ts = rng.sample(['main', 'mainly', 'header', 'page-header', 'para', 'marginalia', 'x'], rng.choice([1, 1, 2]))
                 self.ops.append({'op': 'removeType', 'n': n, 'ts': ts, 'as_str': rng.random() < 0.7})
                 self.ops.append({'op': 'hasType', 'n': n, 't': ts[0]})
             elif self.cls:
@@ -464,7 +464,8 @@ def gen_typealg(rng: random.Random) -> List[Dict[str, Any]]:
     g = Gen(rng)
     n = rng.choice([g.word, g.line, lambda: g.region(0), lambda: g.region(0, col=True)])()
     cls = g.cls[n]
-    tags = list(CLASS_TAGS[cls]) + ['main', 'x']
+    # user tags include pairs where one is a substring of the other ('main' in 'mainly')
+    tags = list(CLASS_TAGS[cls]) + ['main', 'mainly', 'x', 'xy']
     ops = g.ops
     for _ in range(rng.randint(3, 10)):
         r = rng.random()
